@@ -129,8 +129,16 @@ def bounded(ses):
     e2e.isolate_cache()
     n = 0
     bad = []
-    for k in range(1, 9):
-        for level, mapproj in (("1.5", 1), ("1.1", 0)):
+    def guarded(label, fn, *a):
+        """an exception of the real code inside a scenario is a finding of that scenario, not a crash of the check"""
+        try:
+            fn(*a)
+        except Exception as e:  # noqa: BLE001
+            bad.append((label, f"raised {type(e).__name__}: {e}"[:200]))
+
+    def one_product(k, level, mapproj):
+        nonlocal n
+        if True:
             root = f"/c13/k{k}_{level}"
             fs, images, names = e2e.make_product(root, k=k, level=level, seed=ses.seed, mapproj=mapproj)
             trees = [open_alos2(f"memory://{root}", backend_options={"records_per_chunk": 2, "use_cache": False}) for _ in range(2)]
@@ -177,37 +185,46 @@ def bounded(ses):
             d = e2e.first_difference(e2e.canon(trees[0]), e2e.canon(trees[1]))
             if d:
                 bad.append((root, "second open differs: " + d))
-    # two products with identical file names open at the same time: each tree must deliver its own pixels
-    fsA, imagesA, _ = e2e.make_product("/c13/twinA", k=2, level="1.5", seed=ses.seed + 100)
-    # same file names, shapes, dtypes and chunking — only the pixels differ
-    imagesB = [(p, s_, ((d.astype("uint32") + 1 + i) % 65536).astype("uint16")) for i, (p, s_, d) in enumerate(imagesA)]
-    fsB, imagesB, _ = e2e.make_product("/c13/twinB", level="1.5", images=imagesB)
-    tA = open_alos2("memory:///c13/twinA", backend_options={"use_cache": False})
-    tB = open_alos2("memory:///c13/twinB", backend_options={"use_cache": False})
-    n += 2
-    for t, images, root in ((tA, imagesA, "twinA"), (tB, imagesB, "twinB")):
-        for (p, s_, d), nm in zip(images, [e2e.group_name(p, s_) for p, s_, _ in images]):
-            vals = t[f"imagery/{nm}/data"].values if nm in t["imagery"].children else None
-            if vals is None or vals.shape != d.shape or not np.array_equal(vals, d):
-                bad.append((root, ("a tree opened next to a same-named product returns foreign pixels", nm)))
-    # partially cached product (only a non-prefix subset of the images has an index): still every group, in summary order
-    import pathlib
 
-    from ceos_alos2.sar_image.caching import path as P
+    for k in range(1, 9):
+        for level, mapproj in (("1.5", 1), ("1.1", 0)):
+            guarded(f"/c13/k{k}_{level}", one_product, k, level, mapproj)
 
-    root = "/c13/partial"
-    fs, images, names = e2e.make_product(root, k=4, level="1.1", seed=ses.seed + 300)
-    open_alos2(f"memory://{root}", backend_options={"use_cache": False, "create_cache": True})
-    idx = sorted(pathlib.Path(P.cache_root).rglob("*.index"))
-    for name in names[2:-1][:1] + names[2:-1][2:3]:  # drop the index of the 1st and 3rd image
-        for p_ in idx:
-            if p_.name == name + ".index":
-                p_.unlink()
-    t = open_alos2(f"memory://{root}", backend_options={"use_cache": True})
-    n += 1
-    want_names = [e2e.group_name(p, s_) for p, s_, _ in images]
-    if list(t["imagery"].children) != want_names:
-        bad.append((root, ("imagery children with a partial cache", list(t["imagery"].children), want_names)))
+    def twins_and_partial_cache():
+        nonlocal n
+        # two products with identical file names open at the same time: each tree must deliver its own pixels
+        fsA, imagesA, _ = e2e.make_product("/c13/twinA", k=2, level="1.5", seed=ses.seed + 100)
+        # same file names, shapes, dtypes and chunking — only the pixels differ
+        imagesB = [(p, s_, ((d.astype("uint32") + 1 + i) % 65536).astype("uint16")) for i, (p, s_, d) in enumerate(imagesA)]
+        fsB, imagesB, _ = e2e.make_product("/c13/twinB", level="1.5", images=imagesB)
+        tA = open_alos2("memory:///c13/twinA", backend_options={"use_cache": False})
+        tB = open_alos2("memory:///c13/twinB", backend_options={"use_cache": False})
+        n += 2
+        for t, images, root in ((tA, imagesA, "twinA"), (tB, imagesB, "twinB")):
+            for (p, s_, d), nm in zip(images, [e2e.group_name(p, s_) for p, s_, _ in images]):
+                vals = t[f"imagery/{nm}/data"].values if nm in t["imagery"].children else None
+                if vals is None or vals.shape != d.shape or not np.array_equal(vals, d):
+                    bad.append((root, ("a tree opened next to a same-named product returns foreign pixels", nm)))
+        # partially cached product (only a non-prefix subset of the images has an index): still every group, in summary order
+        import pathlib
+
+        from ceos_alos2.sar_image.caching import path as P
+
+        root = "/c13/partial"
+        fs, images, names = e2e.make_product(root, k=4, level="1.1", seed=ses.seed + 300)
+        open_alos2(f"memory://{root}", backend_options={"use_cache": False, "create_cache": True})
+        idx = sorted(pathlib.Path(P.cache_root).rglob("*.index"))
+        for name in names[2:-1][:1] + names[2:-1][2:3]:  # drop the index of the 1st and 3rd image
+            for p_ in idx:
+                if p_.name == name + ".index":
+                    p_.unlink()
+        t = open_alos2(f"memory://{root}", backend_options={"use_cache": True})
+        n += 1
+        want_names = [e2e.group_name(p, s_) for p, s_, _ in images]
+        if list(t["imagery"].children) != want_names:
+            bad.append((root, ("imagery children with a partial cache", list(t["imagery"].children), want_names)))
+
+    guarded("/c13/twins-and-partial-cache", twins_and_partial_cache)
     ses.bounded_check("C13/bounded/synthetic-products-k=1..8", not bad,
                       bound=f"k = 1..8 images x (level 1.5 with map projection, level 1.1 without), random distinct (pol, scan) "
                             f"sets, each opened twice ({n} trees)", function="ceos_alos2.xarray.open_alos2", evaluations=n,
